@@ -221,3 +221,14 @@ PROPS['C05'].update(explanation='Deductive (113 obligations): is_holiday / is_bd
     'Holiday and weekend sets are uninterpreted, so every configuration is covered. Bounded: the same clauses natively on 48 random configurations, registry histories.')
 TEXT['C05'].update(level_note='Trusted: VC generator, solvers, induction schema, datetime axioms, rrule(DAILY, byweekday) enumeration axiom, ymd drops the time of day (C04), Calendar(...) stores its arguments. '
     'Range precondition: dates lie between two business days of the calendar.')
+
+PROPS['C13'].update(level='other', explanation="Deductive (counted as proved) - Wrapper logic proved, pandas behaviour bounded: bracket parsing (_closed), the mask selection with >= / > / <= / < by bracket and time-of-day bounds against index.time, the label-slice fast-path guard, bound-list normalisation for increasing / decreasing lb-only / ub-only / both lists (series i sliced to (ub[i-1], ub[i]] with the caller's brackets, reversal of the series together with the bounds, direction mismatch), the strict wrap-past-midnight test with openclose on both halves, n-column frames and df_unslice's intervals are obligations (285) from the real AST over uninterpreted pandas operations. Bounded (not proved): the property itself on enumerated pandas inputs against plain-Python oracles.")
+TEXT['C13'].update(level_text='Mixed: the library\'s own decision logic around pandas is proved for all inputs with the pandas operations uninterpreted; the behaviour of those operations - which is most of the property - is bounded only, hence "other".', level_note='Trusted: the VC generator, the th_pandas model (pandas / numpy operations are uninterpreted functions of receiver and arguments, no aliasing through item / attribute stores, comprehension identity by text), callee contracts by name, as_list / zipper / reduce axioms. What the pandas operations compute is checked by the bounded stand-in only.', technique='contract-based deductive verification (AST-generated VCs over uninterpreted pandas operations, loop invariants, z3/cvc5) + bounded run-time contract check')
+PROPS['C08'].update(level='other', explanation="Deductive (counted as proved) - Wrapper logic proved, pandas / presync behaviour bounded: reducer is a left fold; every public operator forwards exactly the caller's join / method / columns to every nested call; the kernels apply exactly their operator; _div_ yields NaN of the operand's shape for a zero scalar and NaN-replaces zeros on a copy; the aggregates' zero-count guards write NaN (89 obligations). Bounded (not proved): the property itself on enumerated pandas inputs against plain-Python oracles.")
+TEXT['C08'].update(level_text='Mixed: the library\'s own decision logic around pandas is proved for all inputs with the pandas operations uninterpreted; the behaviour of those operations - which is most of the property - is bounded only, hence "other".', level_note='Trusted: the VC generator, the th_pandas model (pandas / numpy operations are uninterpreted functions of receiver and arguments, no aliasing through item / attribute stores, comprehension identity by text), callee contracts by name, as_list / zipper / reduce axioms. What the pandas operations compute is checked by the bounded stand-in only.', technique='contract-based deductive verification (AST-generated VCs over uninterpreted pandas operations, loop invariants, z3/cvc5) + bounded run-time contract check')
+PROPS['C03'].update(level='other', explanation="Deductive (counted as proved) - Wrapper logic proved, pandas behaviour bounded: policy dispatch to intersection / union / first / last reduced over the whole list with no shortcut, df_index / df_reindex / df_sync forwarding, the fill-method branch through _nona(ts).reindex(index, method=methods[0], limit) then the remaining methods, the numpy truncate / pad arithmetic cell by cell, _df_recolumn's guard (111 obligations). Bounded (not proved): the property itself on enumerated pandas inputs against plain-Python oracles.")
+TEXT['C03'].update(level_text='Mixed: the library\'s own decision logic around pandas is proved for all inputs with the pandas operations uninterpreted; the behaviour of those operations - which is most of the property - is bounded only, hence "other".', level_note='Trusted: the VC generator, the th_pandas model (pandas / numpy operations are uninterpreted functions of receiver and arguments, no aliasing through item / attribute stores, comprehension identity by text), callee contracts by name, as_list / zipper / reduce axioms. What the pandas operations compute is checked by the bounded stand-in only.', technique='contract-based deductive verification (AST-generated VCs over uninterpreted pandas operations, loop invariants, z3/cvc5) + bounded run-time contract check')
+PROPS['C12'].update(level='other', explanation="Deductive (counted as proved) - Wrapper logic proved, pandas behaviour bounded: each method step is the prescribed operation applied to the previous result with limit / axis in position; the loop threads the input through all methods in order (invariant with ghost history); the array path wraps, fills and unwraps; _nona's mask reduction terminates and uses all-columns semantics; inputs are never written in place (ownership checker) (311 obligations). Bounded (not proved): the property itself on enumerated pandas inputs against plain-Python oracles.")
+TEXT['C12'].update(level_text='Mixed: the library\'s own decision logic around pandas is proved for all inputs with the pandas operations uninterpreted; the behaviour of those operations - which is most of the property - is bounded only, hence "other".', level_note='Trusted: the VC generator, the th_pandas model (pandas / numpy operations are uninterpreted functions of receiver and arguments, no aliasing through item / attribute stores, comprehension identity by text), callee contracts by name, as_list / zipper / reduce axioms. What the pandas operations compute is checked by the bounded stand-in only.', technique='contract-based deductive verification (AST-generated VCs over uninterpreted pandas operations, loop invariants, z3/cvc5) + bounded run-time contract check')
+PROPS['C17'].update(level='other', explanation='Deductive (counted as proved) - Wrapper logic proved, pandas behaviour bounded: _nth stays in bounds for non-empty groups; the as-of filter is <= asof and precedes the stable stamp sort and the per-date selection; _drop_repeats compares each row with its immediate predecessor and only then keeps the last per stamp; bi_merge returns early only for 0 / 1 versions and merges all versions per date through _drop_repeats (52 obligations). Bounded (not proved): the property itself on enumerated pandas inputs against plain-Python oracles.')
+TEXT['C17'].update(level_text='Mixed: the library\'s own decision logic around pandas is proved for all inputs with the pandas operations uninterpreted; the behaviour of those operations - which is most of the property - is bounded only, hence "other".', level_note='Trusted: the VC generator, the th_pandas model (pandas / numpy operations are uninterpreted functions of receiver and arguments, no aliasing through item / attribute stores, comprehension identity by text), callee contracts by name, as_list / zipper / reduce axioms. What the pandas operations compute is checked by the bounded stand-in only.', technique='contract-based deductive verification (AST-generated VCs over uninterpreted pandas operations, loop invariants, z3/cvc5) + bounded run-time contract check')
